@@ -106,6 +106,13 @@ def slice(ctx: fw.Ctx) -> fw.Outcome:
         n_sync, n_ev = len(secs0.get("SyncTrack", [])), len(secs0.get("Events", []))
         got_sync = len(d0["bpm"]) + len(d0["ts"]) + len(d0["anchor"])
         got_ev = len(d0["TX"]) + len(d0["SE"]) + len(d0["LY"])
+        # … and of its own kind: as many text / section / lyric events as lines of that shape were written (whatever was parsed before)
+        kinds_w = [sum(1 for _, k_, _ in src.gevents if k_ == kk) for kk in ("text", "section", "lyric")]
+        kinds_g = [len(d0["TX"]), len(d0["SE"]), len(d0["LY"])]
+        if got_ev == n_ev and kinds_g != kinds_w and n_ev == len(src.gevents):
+            out.violation("conserve-" + fw.h(base.text), f"[Events] of canonical lines: written text / section / lyric = {kinds_w}, parsed {kinds_g}",
+                          {**common.chart_replay(base.text), "conserve": [n_sync, n_ev, 0]}, observed=kinds_g, promised=kinds_w)
+            continue
         want_se = sum(len(t.phrases) + len(t.tevents) for t in src.tracks)
         got_se = sum(len(v.get("sps", [])) + len(v.get("tes", [])) for v in d0["tracks"].values())
         dup_tracks = len({(t.inst, t.diff) for t in src.tracks}) != len(src.tracks)
